@@ -455,3 +455,8 @@ Lemma prox_penalty_expansion mu p s h : length s = length p -> length h = length
 Proof.
   intros Ls Lh. unfold Gen_fed_prox.proximal_penalty. rewrite (sumsq_shift p s h Ls Lh), vdot_vscale. ring.
 Qed.
+
+Lemma gen_process_independent :
+  Gen_fed_prox.process_independent = true /\ Gen_apfl.process_independent = true /\ Gen_mime.process_independent = true /\
+  Gen_mime_lite.process_independent = true /\ Gen_hyp_cluster.process_independent = true.
+Proof. repeat split; reflexivity. Qed.
